@@ -10,7 +10,7 @@ from functools import partial
 
 from . import common, project, shtools
 
-LEVEL = 'partial'
+LEVEL = 'proof'
 RULE = ('W: random DAGs of real bfg9000 file objects (executables, shared/versioned/static/dual-use libraries, headers, '
         'header directories with and without file lists, directories, man pages, data files, .pc files, non-installable '
         'types, phony) with random runtime/linktime dependencies, link options (lib, rpath_dir) and post_install hooks, '
